@@ -1,10 +1,10 @@
 #!/bin/bash
 # tools/try_seed_wt.sh <patch.diff> <ID> [quick|thorough] : like try_seed.sh but in the scratch worktree /tmp/mut (does not touch /repo)
 patch=$1; id=$2; tier=${3:-quick}
-[ -d /tmp/mut ] || git -C /repo worktree add --detach /tmp/mut >/dev/null 2>&1
-cd /tmp/mut && git checkout -q -- . && git checkout -q --detach "$(git -C /repo rev-parse HEAD)" || exit 2
+WT=${VERIF_WT:-/tmp/mut2}; [ -d $WT ] || git -C /repo worktree add --detach $WT >/dev/null 2>&1
+cd $WT && git checkout -q -- . && git checkout -q --detach "$(git -C /repo rev-parse HEAD)" || exit 2
 git apply "$patch" || { echo "patch does not apply"; exit 2; }
 cd /verif; start=$(date +%s)
-VERIF_NUTILS_SRC=/tmp/mut/src /venv/bin/python check "$id" --tier "$tier" ${VERIF_EXTRA:-} 2>&1 | grep -E "^VIOLATION|^  sub|^C[0-9]+ tier|HARNESS" | cut -c1-260 | head -${VERIF_LINES:-8}
+VERIF_NUTILS_SRC=$WT/src /venv/bin/python check "$id" --tier "$tier" ${VERIF_EXTRA:-} 2>&1 | grep -E "^VIOLATION|^  sub|^C[0-9]+ tier|HARNESS" | cut -c1-260 | head -${VERIF_LINES:-8}
 echo "elapsed=$(( $(date +%s) - start ))s"
-cd /tmp/mut && git checkout -q -- .
+cd $WT && git checkout -q -- .
